@@ -89,7 +89,7 @@ Section Convert.
         | VOk (name, cnt, sleep) =>
             if beq name SLEEP then
               match acc with
-              | [] => VPanic   (* result.Requests[len-1] with len = 0: index -1 *)
+              | [] => VErr     (* sleep() must follow a request *)
               | _ => convert r (bump_last acc cnt) allocs
               end
             else if negb (known name) then VErr
@@ -123,6 +123,8 @@ Fixpoint go_gcdm_rev (ws : list Z) : Z :=
    division); the sum is the capacity handed to make: negative -> panic.
    Result: the copies per scenario. *)
 Definition spread_counts (weights : list Z) : rres (list Z) :=
+  if existsb (fun w => w <? 0) weights then VErr       (* DecodeMap: negative weight *)
+  else
   match weights with
   | [] => VOk []
   | [_] => VOk [1]
@@ -147,6 +149,8 @@ Section Index.
      rnd: what iter.Rand(len) returns when len > 0 *)
   Definition calc_index (idx : bytes) (len nxt rnd : Z) : rres Z :=
     let kw := beq idx NEXT || beq idx RAND || beq idx LAST in
+    if len =? 0 then VErr                                  (* empty list *)
+    else
     match atoi idx, kw with
     | None, false => VErr
     | Some i, false =>
@@ -184,7 +188,7 @@ Section Property.
 
   Definition property_resolve (inp : bytes) : rres bytes :=
     let '(filename, key, found) := cut HASH inp in
-    if negb found then VPanic   (* split[1] of a 1-element slice *)
+    if negb found then VErr     (* property name is missing *)
     else
       match file_lines filename with
       | None => VErr
@@ -194,24 +198,28 @@ End Property.
 
 (* ---------- str.RandStringRunes: b := make([]rune, n) ---------- *)
 Definition rand_string_alloc (n : Z) : rres Z :=
-  if (n <? 0) || (max_alloc <? 4 * n) then VPanic else VOk n.
+  if n <=? 0 then VOk 0                      (* "" *)
+  else if max_alloc <? 4 * n then VPanic     (* makeslice: len out of range *)
+  else VOk n.
 
 (* ---------- ioutil2.MultiPassReader ---------- *)
 (* one Read(p) with len(p) = m > 0 on a source of [len] bytes at offset [pos];
    result: bytes read, error?, new position, new passes count *)
-Record mpr := { mp_pos : Z; mp_passes : Z }.
+Record mpr := { mp_pos : Z; mp_passes : Z; mp_read_in_pass : bool }.
 
 Definition mp_read (len limit m : Z) (s : mpr) : Z * bool * mpr :=
   let avail := len - mp_pos s in
   if 0 <? avail then
     let n := Z.min m avail in
-    (n, false, {| mp_pos := mp_pos s + n; mp_passes := mp_passes s |})
+    (n, false, {| mp_pos := mp_pos s + n; mp_passes := mp_passes s; mp_read_in_pass := true |})
   else
     (* underlying reader: (0, io.EOF) *)
     let pc := mp_passes s + 1 in
-    if (limit <=? 0) || (pc <? limit)
-    then (0, false, {| mp_pos := 0; mp_passes := pc |})      (* Seek to the start, err = nil *)
-    else (0, true, {| mp_pos := mp_pos s; mp_passes := pc |}).
+    if negb (mp_read_in_pass s) then
+      (0, true, {| mp_pos := mp_pos s; mp_passes := pc; mp_read_in_pass := false |})   (* an empty pass: io.EOF *)
+    else if (limit <=? 0) || (pc <? limit)
+    then (0, false, {| mp_pos := 0; mp_passes := pc; mp_read_in_pass := false |})      (* Seek to the start, err = nil *)
+    else (0, true, {| mp_pos := mp_pos s; mp_passes := pc; mp_read_in_pass := mp_read_in_pass s |}).
 
 (* k successive Reads: (n, eof?) of each *)
 Fixpoint mp_reads (k : nat) (len limit m : Z) (s : mpr) : list (Z * bool) :=
@@ -224,7 +232,7 @@ Fixpoint mp_reads (k : nat) (len limit m : Z) (s : mpr) : list (Z * bool) :=
 Inductive gres :=
 | GDeliver (tag call : bytes)
 | GErr
-| GSpin.        (* the pass loop repeats for ever without delivering anything *)
+| GSpin.        (* the pass loop repeats for ever without delivering anything (unreachable) *)
 
 Section GrpcJson.
   (* jsoniter.Unmarshal of one line into ammo.Ammo: (tag, call) or an error *)
@@ -246,7 +254,7 @@ Section GrpcJson.
             match e with
             | STooLong => [GErr]
             | SEof => match all with
-                      | [] => [GSpin]
+                      | [] => [GErr]          (* a whole pass delivered nothing: "no ammo in file" *)
                       | l :: r => step l r
                       end
             end
